@@ -1,6 +1,6 @@
-SPECIFICATION FSpec
+SPECIFICATION GSpec
 CONSTANTS
-  Repos = {"foo", "foo/a", "foo/b", "fooey"}
+  Repos = {"r1", "r2", "r3", "r4"}
   Tags = {"t1", "t2"}
   Cids = {"b0", "b1", "b2", "img", "idx", "idy", "sub", "bad"}
   BlobIds = {}
@@ -10,14 +10,12 @@ CONSTANTS
   ImmChoices = {FALSE, TRUE}
   BlockSize = 8
   Pos <- FPos
-  Prefix = "foo"
+  Prefix = ""
   Chars <- MCChars
-  MCKinds = {"sub"}
-  ErrIds = {}
+  MCKinds = {"checker", "select"}
+  ErrIds = {"E_DENIED", "E_UNKNOWN", "E_CUSTOM1"}
   MaxSteps = 2
-  HostileSteps = 2
+  HostileSteps = 1
   AllScopes = TRUE
-INVARIANTS FTypeOK
-PROPERTIES Confined EqualsRestriction ListingExact ScopesRewritten
-VIEW FView
+  GenWhat = {"checkerops", "checkerlist", "selectlist", "selectops"}
 CHECK_DEADLOCK FALSE
